@@ -481,6 +481,76 @@ def _propagates(body):
     return False
 
 
+def _peel_pat(p):
+    while p.get("k") in ("Deref", "DerefPattern", "AscribeUserType") and p.get("sub"):
+        p = p["sub"]
+    return p
+
+
+def _err_binders(pat):
+    """How an arm that can see an Err sees the error value: ('specific', None) when the pattern names one non-I/O variant of a
+    crate error (the arm cannot see an I/O error), ('bound', ids) when the error (or the whole result, or the Common(..) payload)
+    is bound to variables, ('blind', None) when it is matched by a wildcard."""
+    p = _peel_pat(pat)
+    if p.get("k") == "Binding":
+        ids = {p["var"]["id"]}
+        if p.get("sub"):
+            k, more = _err_binders(p["sub"])
+            if k == "specific":
+                return k, None
+            return "bound", ids | (more or set())
+        return "bound", ids
+    if p.get("k") == "Wild" or p.get("k") is None:
+        return "blind", None
+    if p.get("k") == "Or":
+        kinds = [_err_binders(q) for q in p.get("pats", [])]
+        if all(k == "specific" for k, _ in kinds):
+            return "specific", None
+        ids = set()
+        for k, i in kinds:
+            if k == "blind":
+                return "blind", None
+            ids |= (i or set())
+        return "bound", ids
+    if p.get("k") == "Variant":
+        v = p.get("variant")
+        subs = p.get("subs") or []
+        if v in ("Err", "Common"):
+            if not subs:
+                return "blind", None
+            return _err_binders(subs[0]["pat"])
+        if v == "IoError":
+            ids = set()
+            for sp in subs:
+                q = _peel_pat(sp["pat"])
+                if q.get("k") == "Binding":
+                    ids.add(q["var"]["id"])
+            return ("bound", ids) if ids else ("blind", None)
+        return "specific", None
+    return "blind", None
+
+
+def _can_do_io(e, fn_body, depth=0):
+    """The expression awaits / blocks on something (or is a local whose initialiser does): its Err can be an I/O error or an
+    end of input. A pure computation returning the crate's error type (QoS::from_u8, Pid::try_from, ..) cannot produce one."""
+    for y in walk_all(e):
+        if y.get("k") == "Await" or (y.get("k") == "Call" and y["fn"].get("name") in ("block_on", "poll_read", "read_exact", "read")):
+            return True
+    base = strip(e)
+    if base.get("k") in ("Var", "Upvar") and depth < 3:
+        for blk in walk_all(fn_body):
+            if blk.get("k") == "Block":
+                for st in blk.get("stmts", []):
+                    if st.get("k") == "Let" and st.get("init") is not None and st["pat"].get("k") == "Binding" and st["pat"]["var"]["id"] == base["var"]["id"]:
+                        return _can_do_io(st["init"], fn_body, depth + 1)
+        return True       # a parameter / pattern binding: unknown origin
+    return False
+
+
+def _mentions(body, ids):
+    return any(y.get("k") in ("Var", "Upvar") and y["var"]["id"] in ids for y in walk_all(body))
+
+
 def _result_matches(F, R, dec):
     """A Result that can carry an I/O error (crate error types, io::Error) is consumed by `?` or by a match /
     if-let / let-else in which every arm that can see an Err propagates it (returns, `?`s or rebuilds an Err).
@@ -497,20 +567,20 @@ def _result_matches(F, R, dec):
             if x.get("k") == "Match" and not x.get("src", "Normal").startswith(("TryDesugar", "AwaitDesugar", "ForLoopDesugar")):
                 et = _err_type(x["scrut"].get("ty"))
                 if et is not None:
-                    sites.append(("match", et, [(a["pat"], a["body"]) for a in x["arms"]]))
+                    sites.append(("match", et, [(a["pat"], a["body"]) for a in x["arms"]], x["scrut"]))
             if x.get("k") == "If":
                 c = unblock(x["cond"])
                 if c.get("k") == "Let":
                     et = _err_type(c["e"].get("ty"))
                     if et is not None:
-                        sites.append(("if-let", et, [(c["pat"], x["then"]), ({"k": "Wild"}, x.get("else") or {"k": "Tuple", "items": []})]))
+                        sites.append(("if-let", et, [(c["pat"], x["then"]), ({"k": "Wild"}, x.get("else") or {"k": "Tuple", "items": []})], c["e"]))
             if x.get("k") == "Block":
                 for st in x.get("stmts", []):
                     if st.get("k") == "Let" and st.get("else") is not None and st.get("init") is not None:
                         et = _err_type(st["init"].get("ty"))
                         if et is not None:
-                            sites.append(("let-else", et, [(st["pat"], {"k": "Tuple", "items": []}), ({"k": "Wild"}, st["else"])]))
-            for kind, et, arms in sites:
+                            sites.append(("let-else", et, [(st["pat"], {"k": "Tuple", "items": []}), ({"k": "Wild"}, st["else"])], st["init"]))
+            for kind, et, arms, scrut in sites:
                 if not (et in IO_CARRYING or "::" not in et or et.startswith("<")):
                     continue      # error of a pure computation (Utf8Error, TryFromIntError, ..)
                 seen += 1
@@ -523,6 +593,14 @@ def _result_matches(F, R, dec):
                     okk = _propagates(body)
                     R.check(okk, "H-noswallow", "%s/%s-on-result/%s" % (root, kind, pp_pat(pat)[:40] if pat.get("k") != "Wild" else "_"),
                             "%s: a %s on a Result<_, %s> has an arm `%s` that does not propagate the error: an I/O error or end of input becomes a value" % (
+                                root, kind, et, pp_pat(pat)[:60] if pat.get("k") != "Wild" else "_"), where=loc(x))
+                    if not okk:
+                        continue
+                    how, ids = _err_binders(pat)
+                    same = how == "specific" or (how == "bound" and _mentions(body, ids)) or not _can_do_io(scrut, b)
+                    R.check(same, "H-noswallow", "%s/%s-on-result/%s/replaced" % (root, kind, pp_pat(pat)[:40] if pat.get("k") != "Wild" else "_"),
+                            "%s: a %s on a Result<_, %s> has an arm `%s` that can see an I/O error (or end of input) and returns a different error "
+                            "without using the one it caught: the front-ends then disagree on where the input ended" % (
                                 root, kind, et, pp_pat(pat)[:60] if pat.get("k") != "Wild" else "_"), where=loc(x))
     R.floor("H-noswallow", "matches on I/O-carrying results (wrappers and poll included)", seen, 4)
 
